@@ -47,6 +47,23 @@ def startTaskF (env : Env) (fail : List String) (x : FW) (id : String) (t : Task
   else if !startable fail id t then ((saveLastErrorF (saveLastErrorF x id) id).note "start-refused", false)
   else (((saveLastErrorF x id).setExec id true).note "start-ok", true)
 
+/-- The tail of handleCreateTask: start the task when it is enabled. -/
+def startCreatedF (env : Env) (fail : List String) (x : FW) (id : String) (t : Task) : FW × Resp :=
+  if t.enabled then
+    if (startTaskF env fail x id t).2 then ((startTaskF env fail x id t).1.note "create-enabled", .ok)
+    else ((startTaskF env fail x id t).1.note "create-start-failed", .fail)
+  else (x.note "create-disabled", .ok)
+
+/-- Save the task (error: 500), associate it with its template (error: 500, the task stays stored and is not
+started), start it when enabled. -/
+def createCommitF (env : Env) (fail : List String) (x : FW) (id : String) (t : Task) (templated : Bool) : FW × Resp :=
+  if !(createF x id t).2 then ((createF x id t).1.note "fault-create", .fail)
+  else if templated && !(assocF (createF x id t).1 t.tmpl id true).2 then
+    ((assocF (createF x id t).1 t.tmpl id true).1.note "fault-associate", .fail)
+  else
+    startCreatedF env fail
+      (if templated then (assocF (createF x id t).1 t.tmpl id true).1.note "create-templated" else (createF x id t).1) id t
+
 /-- handleCreateTask (repaired order). -/
 def createTaskF (env : Env) (fail : List String) (x : FW) (id : String) (r : TaskReq) : FW × Resp :=
   if (x.w.store.tasks id).isSome then (x.note "create-exists", .bad)
@@ -56,16 +73,7 @@ def createTaskF (env : Env) (fail : List String) (x : FW) (id : String) (r : Tas
     | some (script, templated) =>
       match createValidate env r script with
       | .error b => (x.note b, .bad)
-      | .ok t =>
-        if !(createF x id t).2 then ((createF x id t).1.note "fault-create", .fail)
-        else if templated && !(assocF (createF x id t).1 t.tmpl id true).2 then
-          ((assocF (createF x id t).1 t.tmpl id true).1.note "fault-associate", .fail)
-        else
-          let x2 := (if templated then (assocF (createF x id t).1 t.tmpl id true).1.note "create-templated" else (createF x id t).1)
-          if t.enabled then
-            if (startTaskF env fail x2 id t).2 then ((startTaskF env fail x2 id t).1.note "create-enabled", .ok)
-            else ((startTaskF env fail x2 id t).1.note "create-start-failed", .fail)
-          else (x2.note "create-disabled", .ok)
+      | .ok t => createCommitF env fail x id t templated
 
 /-- Store the definition; the error of Delete(old) is only logged. -/
 def storeDefinitionF (x : FW) (id newId : String) (upd : Task) : FW × Bool :=
@@ -93,6 +101,17 @@ def finishUpdateF (env : Env) (fail : List String) (x : FW) (id newId : String) 
     else ((x.setExec id false).note "update-disable", .ok)
   else (x.note (if orig.enabled then "update-stays-enabled" else "update-stays-disabled"), .ok)
 
+/-- Store the definition (error: 500, nothing else happens), move the association when needed (an error there is
+reported only after the running state was adjusted), adjust the running state. -/
+def updateCommitF (env : Env) (fail : List String) (x : FW) (id newId : String) (orig upd : Task) (m : String) : FW × Resp :=
+  if !(storeDefinitionF x id newId upd).2 then ((storeDefinitionF x id newId upd).1.note "fault-or-taken", .fail)
+  else if needsReassoc Variant.fixed id newId orig m then
+    ((finishUpdateF env fail (reassociateF (storeDefinitionF x id newId upd).1 id orig m newId).1 id newId orig upd).1,
+     if (reassociateF (storeDefinitionF x id newId upd).1 id orig m newId).2
+     then (finishUpdateF env fail (reassociateF (storeDefinitionF x id newId upd).1 id orig m newId).1 id newId orig upd).2
+     else .fail)
+  else finishUpdateF env fail (storeDefinitionF x id newId upd).1 id newId orig upd
+
 /-- handleUpdateTask (repaired order). -/
 def updateTaskF (env : Env) (fail : List String) (x : FW) (id : String) (r : TaskReq) : FW × Resp :=
   match x.w.store.tasks id with
@@ -103,19 +122,7 @@ def updateTaskF (env : Env) (fail : List String) (x : FW) (id : String) (r : Tas
     | some (script, m) =>
       match updateValidate env orig r script m with
       | .error b => (x.note b, .bad)
-      | .ok upd =>
-        if !(storeDefinitionF x id (if r.newId ≠ "" then r.newId else id) upd).2 then
-          ((storeDefinitionF x id (if r.newId ≠ "" then r.newId else id) upd).1.note "fault-or-taken", .fail)
-        else if needsReassoc Variant.fixed id (if r.newId ≠ "" then r.newId else id) orig m then
-          -- an association error is reported only after the running state was adjusted
-          ((finishUpdateF env fail (reassociateF (storeDefinitionF x id (if r.newId ≠ "" then r.newId else id) upd).1 id orig m (if r.newId ≠ "" then r.newId else id)).1
-                 id (if r.newId ≠ "" then r.newId else id) orig upd).1,
-           if (reassociateF (storeDefinitionF x id (if r.newId ≠ "" then r.newId else id) upd).1 id orig m (if r.newId ≠ "" then r.newId else id)).2
-           then (finishUpdateF env fail (reassociateF (storeDefinitionF x id (if r.newId ≠ "" then r.newId else id) upd).1 id orig m (if r.newId ≠ "" then r.newId else id)).1
-                 id (if r.newId ≠ "" then r.newId else id) orig upd).2
-           else .fail)
-        else finishUpdateF env fail (storeDefinitionF x id (if r.newId ≠ "" then r.newId else id) upd).1
-               id (if r.newId ≠ "" then r.newId else id) orig upd
+      | .ok upd => updateCommitF env fail x id (if r.newId ≠ "" then r.newId else id) orig upd m
 
 /-- deleteTask: the errors of snapshots.Delete and DisassociateTask are ignored / logged; tasks.Delete's is returned. -/
 def deleteTaskF (x : FW) (id : String) : FW × Resp :=
